@@ -8,6 +8,7 @@ import Model.JsonRead
 import Model.Cells
 import Model.Value
 import Model.CastGen
+import Model.RowPrint
 import Driver.Common
 
 namespace Jl.DriverC06
@@ -78,6 +79,30 @@ def renderEntries (es : List (Bytes × Option Val)) : String :=
   " ".intercalate (es.map fun (k, v) =>
     "K:" ++ hexOf k ++ " " ++ (match v with | some v => v.show | none => "NILVALUE"))
 
+mutual
+  /-- The member names of a JSON value at every depth, in order: `{6b{…},6b2}`, `[…,…]`, nothing for a scalar. -/
+  def skelJV : JV → String
+    | .arr xs => "[" ++ ",".intercalate (skelList xs) ++ "]"
+    | .obj ms => "{" ++ ",".intercalate (skelMembers ms) ++ "}"
+    | _ => ""
+  def skelList : JVList → List String
+    | .nil => []
+    | .cons x xs => skelJV x :: skelList xs
+  def skelMembers : JVMembers → List String
+    | .nil => []
+    | .cons k v ms => (hexOf k ++ skelJV v) :: skelMembers ms
+end
+
+/-- What `MarshalJSON` of the row shows of the member order at EVERY depth (nested objects and arrays under the
+    row's keys included): the skeleton of the text the model of the writer produces for these entries. -/
+def deepOrder (entries : List (Bytes × Option Val)) : Option String :=
+  let ms := Members.ofList (entries.filterMap fun (k, v) => v.map fun v => (k, v))
+  match RowPrint.marshalRow ⟨genTables, Ext.empty⟩ ms with
+  | .ok bs =>
+    let (tree, ok) := Json.unmarshal bs
+    if ok then some (skelJV (.obj tree)) else some "UNREADABLE"
+  | _ => none
+
 /-- Observation of a row state given through its three readers. -/
 def observe (err : String) (len : Nat) (entries : List (Bytes × Option Val))
     (get : Bytes → Option Val) (at_ : Int → Option Val) : String :=
@@ -90,7 +115,8 @@ def observe (err : String) (len : Nat) (entries : List (Bytes × Option Val))
   let visible := entries.filter fun (_, v) =>
     match v with | some v => Cells.format v != Format.hidden | none => true
   let jk := s!"{visible.length}:" ++ ",".intercalate (visible.map fun (k, _) => hexOf k)
-  s!"e={err} | len={len} | it={renderEntries entries} | has={has} | get={gets} | at={ats} | jk={jk}"
+  let js := match deepOrder entries with | some d => s!" | js={d}" | none => ""
+  s!"e={err} | len={len} | it={renderEntries entries} | has={has} | get={gets} | at={ats} | jk={jk}{js}"
 
 def errName (syn : Bool) : Option ErrClass → String
   | some e => e.name
